@@ -62,6 +62,21 @@ CLAIMS = {
             'TLC checks for 1873..2126 x 12 x 7 x every day-of-month expression (1.32M cases; quick: every third year) that the declarative resolution is the calendar\'s answer, that admitted expressions never leave the year and C++ = Python = definition on them, and that every expression that can leave the year is rejected. The real C++ function is run on the whole admitted space and must equal TLC\'s dumped table (every 11th year) and the real Python function on every row; the real ON-string parser is run on the whole grammar and malformed neighbours; the real transformer filter is run on all 5,208 (month, weekday, bound) expressions and must coincide with the specification\'s Admitted.',
             'Day-of-month bounds beyond the month length (e.g. Sun>=31 in February) are outside the modelled space.',
             '§4.2, §6-C18'),
+    'C05': ('model_checking',
+            'TLA+ field model of instants at an offset (MC_Fields over Calendar.tla) checked by TLC over the int32 day range; dumped rows compared with the real OffsetDateTime; native sweeps of manual offsets and of every database zone (round trip, Unix variants, conversions, compareTo)',
+            'TLC checks round trip, field validity, conversion between offsets preserving the instant, Unix = epoch + 10957 days and order = instant order on every k-th day of the int32 range x boundary seconds x 11 offsets, and dumps the field table; the real OffsetDateTime::forEpochSeconds reproduces every row. Natively, all int32 instants on a stride (plus every day boundary) x 11 manual offsets, and every zone of both registries (direct and manager-created) on a grid plus dense neighbourhoods of every transition are round-tripped, converted to other zones/offsets (instant must be preserved, compareTo = 0) and ordered against later instants (including across fall-backs, where wall time repeats).',
+            'Precondition as stated by the property: the shifted instant and the Unix value are representable in int32 and the year is in the zone data.',
+            '§4.9, §6-C05'),
+    'C15': ('model_checking',
+            'TLA+ model of the printed forms and of the chainable parsers with their byte arithmetic (Iso8601.tla); TLC proves Parse(Print(x)) = x per component over complete domains; every dumped text compared with the real printTo; native print->parse round trips',
+            'TLC checks exact shape and Parse(Print(x)) = x for every date 1873..2127 (quick: stride 3), every second of a day (quick: stride 7), every offset within +-99:59 and the chained 25-character form, and dumps the printed texts; the real printTo must produce exactly those texts. Natively (ASan/UBSan build) local and offset date-times over all days x times x offsets are printed, compared with the expected text and parsed back to equal values; zoned date-times of every zone of both registries print the same text followed by the bracketed zone name and parse back to the same instant and offset; error values print their placeholders; every prefix shorter than the required length parses to an error value.',
+            'Offsets beyond +-99:59 (three-digit hours) are outside the property.',
+            '§4.9, §6-C15'),
+    'C17': ('model_checking',
+            'TLA+ transcriptions of TimePeriod, TimeOffset and the increment helpers (MC_Period.tla) checked by TLC over their domains; each dumped row compared with the real classes; all 1,843,199 second counts through the real TimePeriod',
+            'TLC checks round trip, component ranges, negate and compareTo (against neighbours and extremes) for second counts on a stride plus boundaries, decomposition of all sign-consistent int8 (hour, minute) pairs, closure and the 129-step cycle of increment15Minutes over -960..960, and absorption/closure of every increment helper over all 256 byte values; it dumps each row and the real classes must reproduce them; natively every second count -921599..921599 is round-tripped, negated and ordered.',
+            'The signed year helper is only required on its documented interval [0, 99].',
+            '§4.9, §6-C17'),
 }
 
 PLANNED = {
